@@ -415,6 +415,11 @@ def sentence_field_cases(rng, tier):
         add(gen.sentence(bytes([c]) + pay[1:], fill), None)     # first payload byte (message_type)
         add(gen.sentence(pay[:5] + bytes([c]) + pay[6:], fill), 0)
         add(gen.sentence(bytes([c]), fill), 0)
+    # channel fields that are text in some encoding: well-formed and broken UTF-8 of every length
+    for ch in ('é', 'é1', 'Aé', '€', '€A', '\U0001F600', 'ß€', '\u0080', '\u07ff', '\u0800', '\uffff', '\U00010000', '\U0010ffff'):
+        add(gen.sentence(pay, fill, chan=ch.encode('utf-8')), 0)
+    for ch in (b'\xc3', b'\xc3\x28', b'\xe2\x82', b'\xe2\x28\xa1', b'\xf0\x9f\x98', b'\xc0\xaf', b'\xed\xa0\x80', b'\xf4\x90\x80\x80', b'\xc3\xa9\xff', b'\xff\xc3\xa9'):
+        add(gen.sentence(pay, fill, chan=ch), 0)
     for f in range(0, 12):
         add(gen.sentence(pay, f)); add(gen.sentence(pay, b'0' + str(f).encode()))
     for tag in (None, b'', b's:1*00', b'\\', b'a' * 100, b'!AIVDM', b'*', b','):
@@ -422,6 +427,14 @@ def sentence_field_cases(rng, tier):
             add(gen.sentence(pay, fill, start=start, tag=tag), 0)
     for tail in (b'', b'\r', b'\r\n', b'0', b'00', b'zz', b' ', b'G', b'000000', b'\xff'):
         add(gen.sentence(pay, fill, tail=tail), 0)
+    # spellings of the checksum field: runs of up to and beyond eight hex digits (only the first eight are read)
+    for pl in (pay, b'15M', pay[:7] + b'w'):
+        base = gen.sentence(pl, fill)
+        head, cs = base[:-2], base[-2:]
+        for sp in (b'0' + cs, b'00' + cs, b'000000' + cs, b'0000000' + cs, b'00000000' + cs, b'000000' + cs + b'5', b'000000' + cs + b'F0',
+                   cs.lower(), b'000000' + cs.lower(), cs + b'g', cs + b'G', b'0' * 20 + cs, cs + b'0' * 10, b'1' + cs, b'100' + cs[1:],
+                   cs[:1], cs[1:], b'0x' + cs, b'+' + cs, b' ' + cs, b'FFFFFFFF' + cs, b'00000' + cs + b'0'):
+            add(head + sp, 0)
     for _ in range(scale(tier, 600, 8000)):
         add(gen.valid_sentence(rng))
     return out
@@ -435,6 +448,11 @@ def address_sweeps(rng, tier):
            sweep.case(line, 2, 3), sweep.case(line, 1, 3)]
     for x in range(256):
         out.append(sweep.case(gen.sentence(b'15M', 0, addr=b'AI' + bytes([x]) + b'DM'), 4, 5))
+    # the channel field: every two-byte field, and every pair in front of / behind a third byte
+    l2, l3 = gen.sentence(b'15M', 0, chan=b'AB'), gen.sentence(b'15M', 0, chan=b'ABC')
+    i = l2.index(b',AB,') + 1
+    out += [sweep.case(l2, i, i + 1), sweep.case(l3, i, i + 1), sweep.case(l3, i + 1, i + 2),
+            sweep.case(gen.sentence(b'15M', 0, chan=b'\xe2\x82\xac'), i, i + 2), sweep.case(gen.sentence(b'15M', 0, chan=b'\xf0\x9f\x98\x80'), i, i + 1)]
     if tier != 'quick':
         for x in range(256):
             out.append(sweep.case(gen.sentence(b'15M', 0, addr=bytes([x]) + b'IVDM'), 2, 3))     # talker x first report byte
